@@ -62,7 +62,7 @@ void RadioTapWriter::write_option(const RadioTap::option& option) {
     RadioTapParser parser(buffer_);
     const uint8_t* candidate_ptr = parser.current_option_ptr();
     // Loop while we find lower fields and we're still in the first namespace
-    while (parser.has_fields()) {
+    while (parser.has_fields() && parser.current_namespace_index() == 0) {
         if (parser.current_field() > option.option()) {
             break;
         }
